@@ -148,7 +148,7 @@ func preimage(r *Run) {
 				r.viol("K10-preimage-coverage", "chain/nom.(*AccountBlock).ComputeHash", "covers "+f, "ComputeHash no longer reads AccountBlock."+f+": the hash does not commit to it any more", "the hash commits to this field", file, line)
 			}
 		}
-		r.Returns("chain/nom.(*AccountBlock).DescendantBlocksHash", []string{"types.NewHash(iter(make([]byte)))"}, "descendants enter the pre-image through their own hashes, in order")
+		r.Returns("chain/nom.(*AccountBlock).DescendantBlocksHash", []string{"types.NewHash(iter(make([]byte,0,(32*len(recv.DescendantBlocks)))))"}, "descendants enter the pre-image through their own hashes, in order")
 	}
 	// dispositions that need a per-class check
 	ep := "vm.enoughPlasma"
